@@ -58,3 +58,10 @@ Example C23_hyps_satisfiable :
   seq_sum tm P (sym_vals 7) =
     Some (P (P (P (V 0) (V 1)) (P (V 2) (V 3))) (P (P (V 4) (V 5)) (V 6))).
 Proof. repeat split; try discriminate; try lia. Qed.
+
+(* The evaluated tree is a sum of all summands, each exactly once and in order: its in-order leaf
+   sequence over symbolic summands v0..v(n-1) is 0..n-1.  BOUNDED statement (1 <= n <= 128, by
+   exhaustive computation); the theorems above are unbounded. *)
+Theorem C23_tree_leaves_in_order_upto_128 :
+  forall n, 1 <= n <= 128 -> leaves_ok n = true.
+Proof. exact tree_leaves_bounded. Qed.
